@@ -46,16 +46,31 @@ func urlCases(fd protoreflect.FieldDescriptor, thorough bool, isPath bool) []url
 			}
 		}})
 	}
+	// a decimal integer may carry leading zeros ("08" is eight, not octal and not malformed)
+	switch fd.Kind() {
+	case protoreflect.Int32Kind, protoreflect.Sint32Kind, protoreflect.Sfixed32Kind:
+		lz := protoreflect.ValueOfInt32(8)
+		out = append(out, urlCase{label: "valid:leading_zero", raw: []string{"08"}, want: func(m protoreflect.Message, fd protoreflect.FieldDescriptor) { setOrAppend(m, fd, lz) }})
+	case protoreflect.Int64Kind, protoreflect.Sint64Kind, protoreflect.Sfixed64Kind:
+		lz := protoreflect.ValueOfInt64(10)
+		out = append(out, urlCase{label: "valid:leading_zero", raw: []string{"010"}, want: func(m protoreflect.Message, fd protoreflect.FieldDescriptor) { setOrAppend(m, fd, lz) }})
+	case protoreflect.Uint32Kind, protoreflect.Fixed32Kind:
+		lz := protoreflect.ValueOfUint32(9)
+		out = append(out, urlCase{label: "valid:leading_zero", raw: []string{"009"}, want: func(m protoreflect.Message, fd protoreflect.FieldDescriptor) { setOrAppend(m, fd, lz) }})
+	case protoreflect.Uint64Kind, protoreflect.Fixed64Kind:
+		lz := protoreflect.ValueOfUint64(755)
+		out = append(out, urlCase{label: "valid:leading_zero", raw: []string{"0755"}, want: func(m protoreflect.Message, fd protoreflect.FieldDescriptor) { setOrAppend(m, fd, lz) }})
+	}
 	var bads []string
 	switch fd.Kind() {
 	case protoreflect.Int32Kind, protoreflect.Sint32Kind, protoreflect.Sfixed32Kind:
-		bads = []string{"abc", "2147483648", "-2147483649", "1.5", "0x10", "1e3"}
+		bads = []string{"abc", "2147483648", "-2147483649", "1.5", "0x10", "1e3", "0b11", "1_000", "+-1"}
 	case protoreflect.Int64Kind, protoreflect.Sint64Kind, protoreflect.Sfixed64Kind:
-		bads = []string{"abc", "9223372036854775808", "-9223372036854775809", "1.5"}
+		bads = []string{"abc", "9223372036854775808", "-9223372036854775809", "1.5", "0x1f", "0o17", "1_000"}
 	case protoreflect.Uint32Kind, protoreflect.Fixed32Kind:
-		bads = []string{"abc", "-1", "4294967296"}
+		bads = []string{"abc", "-1", "4294967296", "0x10", "1_0"}
 	case protoreflect.Uint64Kind, protoreflect.Fixed64Kind:
-		bads = []string{"abc", "-1", "18446744073709551616"}
+		bads = []string{"abc", "-1", "18446744073709551616", "0x10", "1_0"}
 	case protoreflect.BoolKind:
 		bads = []string{"maybe", "2", "yes"}
 	case protoreflect.FloatKind, protoreflect.DoubleKind:
@@ -89,6 +104,14 @@ func urlCases(fd protoreflect.FieldDescriptor, thorough bool, isPath bool) []url
 		}
 	}
 	return out
+}
+
+func setOrAppend(m protoreflect.Message, fd protoreflect.FieldDescriptor, v protoreflect.Value) {
+	if fd.IsList() {
+		m.Mutable(fd).List().Append(v)
+		return
+	}
+	m.Set(fd, v)
 }
 
 var _ = math.MaxInt32
